@@ -130,18 +130,21 @@ pub fn check(case: &Case, st: &mut Stats) -> Check {
             return viol("C13 file-set-differs", format!("{p} is generated only with the option on"));
         };
         if let Some((src, _)) = outputs.iter().find(|(_, o)| o == p) {
-            if !model.syntactic_deps(src).is_empty() {
-                st.class("skipped_source_with_dependency");
-                continue;
-            }
+            // a source with dependencies legitimately changes in the middle (an included output,
+            // or one read by a command, loses its own final line ending): for it only the end
+            // of the file is judged
             let src_b = &su.tree[src];
+            let includer = !model.syntactic_deps(src).is_empty();
+            if includer {
+                st.class("source_with_dependency:end_only");
+            }
             let le: &[u8] = match src_b.iter().position(|x| *x == b'\n') {
                 Some(i) if i > 0 && src_b[i - 1] == b'\r' => b"\r\n",
                 _ => b"\n",
             };
             let mut b_plus = b.clone();
             b_plus.extend_from_slice(le);
-            if a != b && *a != b_plus {
+            if !includer && a != b && *a != b_plus {
                 return viol(
                     "C13 more-than-final-ending",
                     format!(
@@ -165,7 +168,8 @@ pub fn check(case: &Case, st: &mut Stats) -> Check {
                         format!("option on: output {p} does not end with the last text line {l:?} + line ending: {}", show_bytes(a)),
                     );
                 }
-                if !b.ends_with(l.as_bytes()) || *a != b_plus {
+                let kept = !l.is_empty() && b.ends_with(&want_on);
+                if !b.ends_with(l.as_bytes()) || (!includer && *a != b_plus) || (includer && kept) {
                     return viol(
                         "C13 off-keeps-final-ending",
                         format!("option off: output {p} must end with the last text line {l:?} without line ending: {}", show_bytes(b)),
